@@ -263,7 +263,34 @@ def run(tier):
         keys.append(it["i"])
         if o["others"]:
             nr_drift.setdefault(w["w"], set()).update(o["others"])
-    bad = set(judge(chk, recs, tier))
+    # anti-vacuity: corrupted copies of recorded invocations must be rejected by the judge
+    canaries = []
+    for rec in recs:
+        if len(canaries) >= 40:
+            break
+        if rec["ended"] != "returned" or rec["kind"] in ("void", "nofail", "noreturn"):
+            continue
+        c = json.loads(json.dumps(rec))
+        n = len(canaries) % 4
+        if n == 0:
+            c["issues"] += 1                      # one issue too many
+            c["raws"] = c["raws"] + [c["raws"][-1]]
+        elif n == 1 and c["res"]["tag"] == "err":
+            c["res"]["code"] = -c["res"]["code"]  # errno not negated
+        elif n == 2 and c["res"]["tag"] == "err":
+            c["res"] = {"tag": "unit"}            # error reported as success
+        elif n == 3 and c["res"]["tag"] in ("unit", "val"):
+            c["res"] = {"tag": "err", "code": 1}  # success reported as error
+        else:
+            continue
+        canaries.append(c)
+    verdict = judge(chk, recs + canaries, tier)
+    caught = {k - len(recs) for k in verdict if k >= len(recs)}
+    if len(caught) != len(canaries) or not canaries:
+        raise core.ToolError("SyscallJudge accepted %d of %d corrupted records (vacuous judge)" % (len(canaries) - len(caught), len(canaries)))
+    chk.traces -= len(canaries)
+    chk.extra["corrupted_records_rejected"] = len(canaries)
+    bad = {k for k in verdict if k < len(recs)}
     chk.evaluations = len(recs)
     nontrivial = set()
     disagreements = 0
